@@ -226,11 +226,13 @@ def run_bussync(case, rng):
                     nv = rng.getrandbits(width)
                     if width <= 4:
                         break
+            self.driven = nv                    # on dut.i from this edge on; enters hist at the next a-cycle only
             return {dut.i: nv}
 
         def done(self):
             return self.c >= ncyc
     a = DrvA()
+    a.driven = 0
 
     class MonB:
         def __init__(self):
@@ -248,7 +250,7 @@ def run_bussync(case, rng):
                 # the new output word must be a word the input really held at some input-domain edge (recent history;
                 # plus the very next ones that may already be written in this same tick)
                 window = hist[-(40 * (ratio + 1) + case["timeout"] + 20):]
-                if o not in window and len(errs) < 3:
+                if o not in window and o != a.driven and len(errs) < 3:
                     errs.append({"kind": "output-word-never-present-at-input", "b_cycle": c, "o": o, "recent_inputs": window[-8:]})
             self.prev = o
     b = MonB()
